@@ -12,5 +12,6 @@ CONSTANTS
  AllowWith = TRUE
  AllowVars = FALSE
  MaxUses = 2
+ RestoreOwn = FALSE
 INVARIANTS WithCross
 CHECK_DEADLOCK FALSE
